@@ -12,6 +12,7 @@ import (
 	"fmt"
 	"io"
 	"math"
+	"sort"
 	"strconv"
 	"time"
 
@@ -341,7 +342,14 @@ func (c *client) SendBatch(ctx context.Context, batch []hrpc.Call) (
 		} else {
 			sp.AddEvent("retry")
 		}
-		// Set state for next loop iteration
+		// Set state for next loop iteration. retries is grouped by the
+		// region client each call was sent to in this round; restore
+		// the order of the original batch, because calls that end up
+		// in the same region in the next round must be sent to it in
+		// the order they were passed into SendBatch.
+		sort.SliceStable(retries, func(i, j int) bool {
+			return rpcToRes[retries[i]] < rpcToRes[retries[j]]
+		})
 		batch = retries
 		retries = retries[:0]
 		allOK = !unretryableErrorSeen
